@@ -24,7 +24,14 @@ import (
 
 type RNG struct{ s uint64 }
 
-func NewRNG(seed uint64) *RNG { return &RNG{s: seed*0x9E3779B97F4A7C15 + 0x1234567} }
+// NewRNG derives the stream's start from the seed through the splitmix finalizer, so that
+// consecutive seeds give unrelated streams (seeding with multiples of the increment would only shift one stream).
+func NewRNG(seed uint64) *RNG {
+	z := (seed + 0x632BE59BD9B4E019) * 0xD6E8FEB86659FD93
+	z = (z ^ (z >> 32)) * 0xD6E8FEB86659FD93
+	z ^= z >> 32
+	return &RNG{s: z}
+}
 
 func (r *RNG) U64() uint64 {
 	r.s += 0x9E3779B97F4A7C15
@@ -41,7 +48,7 @@ func (r *RNG) Intn(n int) int {
 }
 func (r *RNG) Bool() bool       { return r.U64()&1 == 1 }
 func (r *RNG) Chance(p int) bool { return r.Intn(100) < p } // p percent
-func (r *RNG) Fork() *RNG       { return &RNG{s: r.U64()} }
+func (r *RNG) Fork() *RNG       { return NewRNG(r.U64()) }
 
 // ---------- driver ----------
 
